@@ -90,6 +90,10 @@ func (sp *SAMLServiceProvider) validateLogoutResponseAttributes(response *types.
 
 func xmlUnmarshalElement(el *etree.Element, obj interface{}) error {
 	doc := etree.NewDocument()
+	// Escape CR (and TAB/LF in attribute values) as character references so that the
+	// decoder does not normalize them away.
+	doc.WriteSettings.CanonicalText = true
+	doc.WriteSettings.CanonicalAttrVal = true
 	doc.SetRoot(el)
 	data, err := doc.WriteToBytes()
 	if err != nil {
